@@ -12,7 +12,12 @@ import (
 )
 
 // addrKey gives a canonical access-path string for an address/value, or "".
-func addrKey(v ssa.Value) string {
+func addrKey(v ssa.Value) string { return addrKeyD(v, 0) }
+
+func addrKeyD(v ssa.Value, rec int) string {
+	if rec > 8 {
+		return ""
+	}
 	for depth := 0; depth < 12; depth++ {
 		switch x := v.(type) {
 		case *ssa.Parameter:
@@ -28,14 +33,14 @@ func addrKey(v ssa.Value) string {
 			return "alloc@" + x.Name() + "/" + x.Parent().Name()
 		case *ssa.FieldAddr:
 			st := deref(x.X.Type()).Underlying().(*types.Struct)
-			k := addrKey(x.X)
+			k := addrKeyD(x.X, rec+1)
 			if k == "" {
 				return ""
 			}
 			return k + "." + st.Field(x.Field).Name()
 		case *ssa.Field:
 			st := x.X.Type().Underlying().(*types.Struct)
-			k := addrKey(x.X)
+			k := addrKeyD(x.X, rec+1)
 			if k == "" {
 				return ""
 			}
@@ -59,24 +64,24 @@ func addrKey(v ssa.Value) string {
 			v = x.X
 			continue
 		case *ssa.Extract:
-			k := addrKey(x.Tuple)
+			k := addrKeyD(x.Tuple, rec+1)
 			if k == "" {
 				return ""
 			}
 			return fmt.Sprintf("%s#%d", k, x.Index)
 		case *ssa.Lookup:
-			k := addrKey(x.X)
+			k := addrKeyD(x.X, rec+1)
 			if k == "" {
 				return ""
 			}
-			return k + "[" + addrKey(x.Index) + "]"
+			return k + "[" + addrKeyD(x.Index, rec+1) + "]"
 		case *ssa.Call:
 			return "call@" + x.Name()
 		case *ssa.Phi:
 			// all edges must agree
 			k := ""
 			for i, e := range x.Edges {
-				ek := addrKey(e)
+				ek := addrKeyD(e, rec+1)
 				if i == 0 {
 					k = ek
 				} else if ek != k {
